@@ -236,6 +236,10 @@ class Core:
         name = self.fresh('f')
         n = r.randint(0, 3)
         params = ['p_%s%d' % (name, i) for i in range(n)]
+        if self.short:
+            # parameters spelled like the names the renamer hands out (calls are positional): a parameter keeps its name in
+            # the signature, so the names given to the other locals must work around it
+            params = [self.fresh('l') if r.random() < 0.6 else p for p in params]
         env = dict((p, 'int') for p in params)
         lines = ['def %s(%s):' % (name, ', '.join(params))]
         gl = [g for g, t in genv.items() if t == 'int' and r.random() < 0.4]
